@@ -7,47 +7,54 @@ use aws_smt_strings::automata::{Automaton, AutomatonBuilder};
 use aws_smt_strings::character_sets::CharSet;
 use aws_smt_strings::errors::Error;
 
+/// a state label whose Hash is legal but far from injective: equal labels hash equally, and many different
+/// labels share a hash code (the builder must tell them apart with Eq)
+#[derive(Clone, Debug, PartialEq, Eq)]
+pub struct ClashLabel(pub u32);
+
+impl std::hash::Hash for ClashLabel {
+    fn hash<H: std::hash::Hasher>(&self, h: &mut H) {
+        (self.0 % 2).hash(h)
+    }
+}
+
+fn replay_calls<T: Eq + std::hash::Hash + Clone>(spec: &Spec, lab: impl Fn(u32) -> T, twice: bool) -> Result<Automaton, Error> {
+    let mut b: AutomatonBuilder<T> = AutomatonBuilder::new(&lab(spec.init));
+    for c in &spec.calls {
+        match c {
+            Call::Trans(s, a, x, t) => {
+                b.add_transition(&lab(*s), &CharSet::range(*a, *x), &lab(*t));
+            }
+            Call::Default(s, t) => {
+                b.set_default_successor(&lab(*s), &lab(*t));
+            }
+            Call::Final(s) => {
+                b.mark_final(&lab(*s));
+            }
+            Call::Build => {
+                let _ = b.build();
+            }
+        }
+    }
+    if twice {
+        let _ = b.build();
+    }
+    b.build()
+}
+
 /// replay the builder calls on the real builder
 /// like build_spec, but build() is called twice on the same builder; returns the SECOND result
 pub fn build_spec_twice(spec: &Spec) -> Result<Result<Automaton, Error>, String> {
-    guard(|| {
-        let mut b: AutomatonBuilder<u32> = AutomatonBuilder::new(&spec.init);
-        for c in &spec.calls {
-            match c {
-                Call::Trans(s, a, x, t) => {
-                    b.add_transition(s, &CharSet::range(*a, *x), t);
-                }
-                Call::Default(s, t) => {
-                    b.set_default_successor(s, t);
-                }
-                Call::Final(s) => {
-                    b.mark_final(s);
-                }
-            }
-        }
-        let _ = b.build();
-        b.build()
-    })
+    guard(|| replay_calls(spec, |l| l, true))
 }
 
 pub fn build_spec(spec: &Spec) -> Result<Result<Automaton, Error>, String> {
-    guard(|| {
-        let mut b: AutomatonBuilder<u32> = AutomatonBuilder::new(&spec.init);
-        for c in &spec.calls {
-            match c {
-                Call::Trans(s, a, x, t) => {
-                    b.add_transition(s, &CharSet::range(*a, *x), t);
-                }
-                Call::Default(s, t) => {
-                    b.set_default_successor(s, t);
-                }
-                Call::Final(s) => {
-                    b.mark_final(s);
-                }
-            }
-        }
-        b.build()
-    })
+    guard(|| replay_calls(spec, |l| l, false))
+}
+
+/// the same calls with labels whose hash codes collide
+pub fn build_spec_clash(spec: &Spec) -> Result<Result<Automaton, Error>, String> {
+    guard(|| replay_calls(spec, ClashLabel, false))
 }
 
 /// the specification as a DFA over `atoms` (atoms must contain all spec points); None if some cell is undefined
